@@ -1891,3 +1891,728 @@ pub proof fn lemma_walk_items(d: Seq<u8>, items: Seq<SdesItemBuilder>, k: int)
 }
 
 } // verus!
+
+verus! {
+
+// ---- C03 part 2: a chunk image is accepted as exactly its items; the chunk images tile the body ---------------------
+use crate::sdes::{Sdes, SdesChunk, SdesItem, chunk_matches, chunks_match, items_match, sdes_accept, chunk_wf, item_wf};
+
+pub open spec fn chunk_cfg_ok(c: &SdesChunkBuilder) -> bool {
+    chunk_calc(c) is Ok && forall|j: int| 0 <= j < c.items@.len() ==> (#[trigger] c.items@[j]).type_ != 0
+}
+
+pub open spec fn chunks_cfg_ok(chunks: Seq<SdesChunkBuilder>) -> bool {
+    forall|i: int| 0 <= i < chunks.len() ==> chunk_cfg_ok(&#[trigger] chunks[i])
+}
+
+pub proof fn lemma_chunk_items_cfg_ok(c: &SdesChunkBuilder)
+    requires
+        chunk_cfg_ok(c),
+    ensures
+        items_cfg_ok(c.items@),
+{
+    let n = c.items@.len() as int;
+    assert forall|i: int| 0 <= i < n implies item_cfg_ok(&#[trigger] c.items@[i]) by {
+        crate::sdes::lemma_items_calc_prefix(c.items@, i, n);
+    }
+}
+
+/// d starts with the image of chunk c (anything may follow): the RFC chunk grammar reads back exactly c's items
+#[verifier::spinoff_prover]
+pub proof fn lemma_chunk_img_accept(d: Seq<u8>, c: &SdesChunkBuilder)
+    requires
+        chunk_cfg_ok(c),
+        img_chunk(c).len() <= d.len(),
+        d.subrange(0, img_chunk(c).len() as int) == img_chunk(c),
+    ensures
+        img_chunk(c).len() == chunk_calc(c)->Ok_0,
+        img_chunk(c).len() >= 8,
+        img_chunk(c).len() % 4 == 0,
+        chunk_accept(d) == Some((item_starts(c.items@, c.items@.len() as int, 4), img_chunk(c).len() as int)),
+        rfc_chunk(d) == chunk_accept(d),
+        be32(d, 0) == c.ssrc,
+        forall|j: int| 0 <= j < c.items@.len() ==> d.subrange(#[trigger] item_starts(c.items@, c.items@.len() as int, 4)[j], item_end(d, item_starts(c.items@, c.items@.len() as int, 4)[j])) == img_item(&c.items@[j]),
+{
+    let n = c.items@.len() as int;
+    let items = c.items@;
+    let body = items_img(items, n);
+    let img = img_chunk(c);
+    lemma_chunk_items_cfg_ok(c);
+    lemma_items_img_len(items, n);
+    crate::sdes::lemma_items_calc_bound(items, n);
+    crate::sdes::axiom_items_sum_fits(items, n);
+    let t = 4 + body.len() as int;
+    let z = pad4(t + 1) - t;
+    lemma_pad4(t + 1);
+    assert(1 <= z <= 4);
+    lemma_be32_img(c.ssrc as int);
+    lemma_concat3(img_be32(c.ssrc as int), body, zeros(z));
+    assert(img.len() == pad4(t + 1));
+    assert(items_calc(items, n) is Ok && items_calc(items, n)->Ok_0 == body.len());
+    assert(body.len() <= 0x2000_0000_0000_0000);
+    assert(chunk_calc(c) == Ok::<usize, crate::RtcpWriteError>(pad4(4 + body.len() as int + 1) as usize));
+    assert(pad4(t + 1) < 0x1_0000_0000_0000_0000);
+    let sub = d.subrange(0, img.len() as int);
+    assert(d.subrange(0, 4) =~= img_be32(c.ssrc as int)) by {
+        assert(sub.subrange(0, 4) =~= d.subrange(0, 4));
+    }
+    lemma_be32_at(d, 0, c.ssrc as int);
+    assert(d.subrange(4, t) =~= body) by {
+        assert(sub.subrange(4, t) =~= d.subrange(4, t));
+    }
+    lemma_walk_items(d, items, n);
+    assert forall|i: int| t <= i < pad4(t + 1) implies d[i] == 0 by {
+        assert(d[i] == sub[i]);
+        assert(sub[i] == img[i]);
+        assert(img[i] == zeros(z)[i - t]);
+    }
+    assert(d[t] == 0);
+    assert(walk(d, t) == Walk::Term(Seq::<int>::empty(), t)) by {
+        reveal_with_fuel(walk, 1);
+    }
+    let st = item_starts(items, n, 4);
+    assert(st + Seq::<int>::empty() =~= st);
+    assert(walk(d, 4) == Walk::Term(st, t));
+    assert(all_zero(d, t, pad4(t + 1)));
+    // every item: the TLV at its start is the item image
+    assert forall|j: int| 0 <= j < n implies d.subrange(#[trigger] st[j], item_end(d, st[j])) == img_item(&items[j]) by {
+        let p = st[j];
+        assert(item_cfg_ok(&items[j]));
+        lemma_item_starts_bounds(items, n, j);
+        lemma_item_img_at(d, p, &items[j], d.len() as int);
+    }
+}
+
+pub proof fn lemma_item_starts_bounds(items: Seq<SdesItemBuilder>, k: int, j: int)
+    requires
+        0 <= j < k <= items.len(),
+        items_cfg_ok(items),
+    ensures
+        item_starts(items, k, 4).len() == k,
+        item_starts(items, k, 4)[j] == 4 + items_img(items, j).len(),
+        items_img(items, j).len() + img_item(&items[j]).len() <= items_img(items, k).len(),
+    decreases k,
+{
+    lemma_items_img_len(items, k);
+    lemma_items_img_len(items, k - 1);
+    if j < k - 1 {
+        lemma_item_starts_bounds(items, k - 1, j);
+    }
+}
+
+/// offsets (packet-relative) at which the chunks of the body start
+pub open spec fn chunk_starts(chunks: Seq<SdesChunkBuilder>, i: int, k: int) -> Seq<int>
+    decreases k - i,
+{
+    if i >= k {
+        Seq::empty()
+    } else {
+        seq![4 + chunks_img(chunks, i).len() as int] + chunk_starts(chunks, i + 1, k)
+    }
+}
+
+pub proof fn lemma_chunk_starts_at(chunks: Seq<SdesChunkBuilder>, i: int, k: int, j: int)
+    requires
+        0 <= i <= j < k,
+    ensures
+        chunk_starts(chunks, i, k).len() == k - i,
+        chunk_starts(chunks, i, k)[j - i] == 4 + chunks_img(chunks, j).len(),
+    decreases k - i,
+{
+    lemma_chunk_starts_len(chunks, i + 1, k);
+    if i < j {
+        lemma_chunk_starts_at(chunks, i + 1, k, j);
+    }
+}
+
+pub proof fn lemma_chunk_starts_len(chunks: Seq<SdesChunkBuilder>, i: int, k: int)
+    requires
+        0 <= i <= k,
+    ensures
+        chunk_starts(chunks, i, k).len() == k - i,
+    decreases k - i,
+{
+    if i < k {
+        lemma_chunk_starts_len(chunks, i + 1, k);
+    }
+}
+
+/// s holds the chunk images from offset 4 to end: the packet-level walk finds exactly the chunk starts from chunk i on
+#[verifier::spinoff_prover]
+pub proof fn lemma_sdes_chunks_img(s: Seq<u8>, chunks: Seq<SdesChunkBuilder>, i: int)
+    requires
+        0 <= i <= chunks.len(),
+        chunks_cfg_ok(chunks),
+        chunks_calc(chunks, chunks.len() as int) is Ok,
+        4 + chunks_img(chunks, chunks.len() as int).len() <= s.len(),
+        s.subrange(4, 4 + chunks_img(chunks, chunks.len() as int).len() as int) == chunks_img(chunks, chunks.len() as int),
+    ensures
+        sdes_chunks(s, 4 + chunks_img(chunks, i).len() as int, 4 + chunks_img(chunks, chunks.len() as int).len() as int) == Some(chunk_starts(chunks, i, chunks.len() as int)),
+        rfc_sdes_chunks(s, 4 + chunks_img(chunks, i).len() as int, 4 + chunks_img(chunks, chunks.len() as int).len() as int) == Some(chunk_starts(chunks, i, chunks.len() as int)),
+    decreases chunks.len() - i,
+{
+    let k = chunks.len() as int;
+    let end = 4 + chunks_img(chunks, k).len() as int;
+    let c0 = 4 + chunks_img(chunks, i).len() as int;
+    crate::sdes::lemma_chunks_calc_prefix(chunks, i, k);
+    crate::sdes::lemma_chunks_img_len(chunks, k);
+    if i < k {
+        let c = &chunks[i];
+        assert(chunk_cfg_ok(c));
+        crate::sdes::lemma_chunks_calc_prefix(chunks, i + 1, k);
+        lemma_chunks_img_sub(chunks, i, k);
+        let d = s.subrange(c0, end);
+        assert(d.subrange(0, img_chunk(c).len() as int) =~= img_chunk(c)) by {
+            assert(s.subrange(4, end).subrange(c0 - 4, c0 - 4 + img_chunk(c).len()) =~= d.subrange(0, img_chunk(c).len() as int));
+        }
+        lemma_chunk_img_accept(d, c);
+        assert(chunks_img(chunks, i + 1) == chunks_img(chunks, i) + img_chunk(c));
+        lemma_sdes_chunks_img(s, chunks, i + 1);
+    } else {
+        assert(c0 == end);
+    }
+}
+
+/// the image of chunk i sits at its offset inside the concatenation
+pub proof fn lemma_chunks_img_sub(chunks: Seq<SdesChunkBuilder>, i: int, k: int)
+    requires
+        0 <= i < k <= chunks.len(),
+    ensures
+        chunks_img(chunks, i).len() + img_chunk(&chunks[i]).len() <= chunks_img(chunks, k).len(),
+        chunks_img(chunks, k).subrange(chunks_img(chunks, i).len() as int, (chunks_img(chunks, i).len() + img_chunk(&chunks[i]).len()) as int) == img_chunk(&chunks[i]),
+    decreases k - i,
+{
+    if i == k - 1 {
+        assert(chunks_img(chunks, k) == chunks_img(chunks, i) + img_chunk(&chunks[i]));
+        assert(chunks_img(chunks, k).subrange(chunks_img(chunks, i).len() as int, chunks_img(chunks, k).len() as int) =~= img_chunk(&chunks[i]));
+    } else {
+        lemma_chunks_img_sub(chunks, i, k - 1);
+        let a = chunks_img(chunks, k - 1);
+        let b = img_chunk(&chunks[k - 1]);
+        let lo = chunks_img(chunks, i).len() as int;
+        let hi = lo + img_chunk(&chunks[i]).len();
+        assert(chunks_img(chunks, k) == a + b);
+        assert((a + b).subrange(lo, hi) =~= a.subrange(lo, hi));
+    }
+}
+
+} // verus!
+
+verus! {
+
+// ---- C03 part 3: the packet image is accepted and the parsed view is the configuration ------------------------------
+
+/// the view C03 asks for: same chunks in order, same SSRC, same items in order, each item the TLV image of its configuration
+pub open spec fn chunk_view_is(c: &SdesChunk, cfg: &SdesChunkBuilder) -> bool {
+    &&& c.ssrc == cfg.ssrc
+    &&& c.items@.len() == cfg.items@.len()
+    &&& forall|j: int| 0 <= j < cfg.items@.len() ==> (#[trigger] c.items@[j]).data@ == img_item(&cfg.items@[j])
+}
+
+pub open spec fn sdes_view_is(chunks: Seq<SdesChunk>, cfg: Seq<SdesChunkBuilder>) -> bool {
+    &&& chunks.len() == cfg.len()
+    &&& forall|i: int| 0 <= i < cfg.len() ==> chunk_view_is(&#[trigger] chunks[i], &cfg[i])
+}
+
+/// type, value bytes and PRIV prefix bytes that the item accessors compute from an item image are the configured ones
+/// (the right-hand sides are the postconditions of SdesItem::type_ / value / priv_prefix_len / priv_prefix)
+pub proof fn lemma_item_view(data: Seq<u8>, it: &SdesItemBuilder)
+    requires
+        item_cfg_ok(it),
+        data == img_item(it),
+    ensures
+        data.len() >= 2,
+        data[0] == it.type_,
+        data[1] as int == data.len() - 2,
+        (if data[0] == 8 { data.subrange(3 + data[2] as int, data.len() as int) } else { data.subrange(2, data.len() as int) }) == cow_str_bytes(&it.value),
+        data[0] == 8 ==> data[2] == cow_u8(&it.prefix).len() && data.subrange(3, 3 + data[2] as int) == cow_u8(&it.prefix),
+{
+    assert(data.subrange(0, data.len() as int) =~= data);
+    lemma_item_img_at(data, 0, it, data.len() as int);
+}
+
+pub open spec fn sdes_cfg_ok(b: &SdesBuilder) -> bool {
+    &&& b.spec_calc() is Ok
+    &&& b.spec_calc()->Ok_0 <= MAX_RTCP_BYTES
+    &&& forall|i: int, j: int| 0 <= i < b.chunks@.len() && 0 <= j < b.chunks@[i].items@.len() ==> (#[trigger] b.chunks@[i].items@[j]).type_ != 0
+}
+
+pub proof fn lemma_sdes_cfg(b: &SdesBuilder)
+    requires
+        sdes_cfg_ok(b),
+    ensures
+        chunks_cfg_ok(b.chunks@),
+        chunks_calc(b.chunks@, b.chunks@.len() as int) is Ok,
+        b.chunks@.len() <= 31,
+        b.padding % 4 == 0,
+        chunks_img(b.chunks@, b.chunks@.len() as int).len() == chunks_calc(b.chunks@, b.chunks@.len() as int)->Ok_0,
+        b.spec_calc()->Ok_0 == 4 + chunks_img(b.chunks@, b.chunks@.len() as int).len() + b.padding,
+        chunks_img(b.chunks@, b.chunks@.len() as int).len() % 4 == 0,
+{
+    let k = b.chunks@.len() as int;
+    crate::sdes::lemma_chunks_img_len(b.chunks@, k);
+    crate::sdes::axiom_chunks_sum_fits(b.chunks@, k);
+    assert forall|i: int| 0 <= i < k implies chunk_cfg_ok(&#[trigger] b.chunks@[i]) by {
+        crate::sdes::lemma_chunks_calc_prefix(b.chunks@, i, k);
+        let c = &b.chunks@[i];
+        assert forall|j: int| 0 <= j < c.items@.len() implies (#[trigger] c.items@[j]).type_ != 0 by {
+            assert(b.chunks@[i].items@[j].type_ != 0);
+        }
+    }
+}
+
+/// the image of an accepted configuration is framed as SDES, carries the configured padding, and its body is exactly the
+/// chunk images: the RFC 3550 grammar (and therefore the parser's acceptance predicate) finds the chunk starts
+// @LEMMA C03
+#[verifier::spinoff_prover]
+pub proof fn lemma_sdes_img_accept(b: &SdesBuilder)
+    requires
+        sdes_cfg_ok(b),
+    ensures
+        b.spec_bytes().len() == b.spec_calc()->Ok_0,
+        framed(b.spec_bytes(), 202, 4),
+        hdr_count(b.spec_bytes()) == b.chunks@.len(),
+        hdr_pad(b.spec_bytes()) == (b.padding > 0),
+        pad_count(b.spec_bytes()) == b.padding,
+        b.padding > 0 ==> b.spec_bytes()[b.spec_bytes().len() - 1] == b.padding,
+        sdes_body_end(b.spec_bytes()) == 4 + chunks_img(b.chunks@, b.chunks@.len() as int).len(),
+        b.spec_bytes().subrange(4, sdes_body_end(b.spec_bytes())) == chunks_img(b.chunks@, b.chunks@.len() as int),
+        sdes_chunks(b.spec_bytes(), 4, sdes_body_end(b.spec_bytes())) == Some(chunk_starts(b.chunks@, 0, b.chunks@.len() as int)),
+        rfc_sdes_chunks(b.spec_bytes(), 4, sdes_body_end(b.spec_bytes())) == Some(chunk_starts(b.chunks@, 0, b.chunks@.len() as int)),
+        sdes_accept(b.spec_bytes()),
+{
+    let k = b.chunks@.len() as int;
+    let body = chunks_img(b.chunks@, k);
+    let s = b.spec_bytes();
+    lemma_sdes_cfg(b);
+    lemma_framed_image(s, body, b.padding as int, k, 202, 4);
+    assert(chunks_img(b.chunks@, 0).len() == 0);
+    lemma_sdes_chunks_img(s, b.chunks@, 0);
+}
+
+/// chunk i of the body: the rest of the body from its start begins with its image
+pub proof fn lemma_chunk_at(s: Seq<u8>, chunks: Seq<SdesChunkBuilder>, i: int)
+    requires
+        0 <= i < chunks.len(),
+        chunks_calc(chunks, chunks.len() as int) is Ok,
+        4 + chunks_img(chunks, chunks.len() as int).len() <= s.len(),
+        s.subrange(4, 4 + chunks_img(chunks, chunks.len() as int).len() as int) == chunks_img(chunks, chunks.len() as int),
+    ensures
+        4 + chunks_img(chunks, i).len() + img_chunk(&chunks[i]).len() <= 4 + chunks_img(chunks, chunks.len() as int).len(),
+        s.subrange(4 + chunks_img(chunks, i).len() as int, 4 + chunks_img(chunks, chunks.len() as int).len() as int).subrange(0, img_chunk(&chunks[i]).len() as int) == img_chunk(&chunks[i]),
+{
+    let k = chunks.len() as int;
+    let end = 4 + chunks_img(chunks, k).len() as int;
+    let c0 = 4 + chunks_img(chunks, i).len() as int;
+    let c = &chunks[i];
+    lemma_chunks_img_sub(chunks, i, k);
+    let d = s.subrange(c0, end);
+    assert(d.subrange(0, img_chunk(c).len() as int) =~= img_chunk(c)) by {
+        assert(s.subrange(4, end).subrange(c0 - 4, c0 - 4 + img_chunk(c).len()) =~= d.subrange(0, img_chunk(c).len() as int));
+    }
+}
+
+/// any value whose chunks are the tokenisation of the image (which is what Sdes::parse returns, by its type invariant)
+/// has exactly the configured chunks and items
+// @LEMMA C03
+#[verifier::spinoff_prover]
+pub proof fn lemma_roundtrip_sdes_view(b: &SdesBuilder, chunks: Seq<SdesChunk>)
+    requires
+        sdes_cfg_ok(b),
+        chunks_match(chunks, b.spec_bytes(), sdes_chunks(b.spec_bytes(), 4, sdes_body_end(b.spec_bytes()))->Some_0, sdes_body_end(b.spec_bytes())),
+    ensures
+        sdes_view_is(chunks, b.chunks@),
+{
+    let k = b.chunks@.len() as int;
+    let s = b.spec_bytes();
+    let cfg = b.chunks@;
+    lemma_sdes_cfg(b);
+    lemma_sdes_img_accept(b);
+    let end = sdes_body_end(s);
+    let starts = chunk_starts(cfg, 0, k);
+    lemma_chunk_starts_len(cfg, 0, k);
+    assert(chunks.len() == k);
+    assert forall|i: int| 0 <= i < k implies chunk_view_is(&#[trigger] chunks[i], &cfg[i]) by {
+        lemma_chunk_starts_at(cfg, 0, k, i);
+        let c0 = 4 + chunks_img(cfg, i).len() as int;
+        assert(starts[i] == c0);
+        let d = s.subrange(c0, end);
+        assert(chunk_matches(&chunks[i], d));
+        lemma_chunk_at(s, cfg, i);
+        assert(chunk_cfg_ok(&cfg[i]));
+        lemma_chunk_img_accept(d, &cfg[i]);
+        let st = item_starts(cfg[i].items@, cfg[i].items@.len() as int, 4);
+        lemma_chunk_items_cfg_ok(&cfg[i]);
+        lemma_items_img_len(cfg[i].items@, cfg[i].items@.len() as int);
+        assert(chunks[i].items@.len() == st.len());
+        assert forall|j: int| 0 <= j < cfg[i].items@.len() implies (#[trigger] chunks[i].items@[j]).data@ == img_item(&cfg[i].items@[j]) by {
+            assert(chunks[i].items@[j].data@ == d.subrange(st[j], item_end(d, st[j])));
+        }
+    }
+}
+
+/// C03 as a verified program over the real API: build into an exactly sized buffer, parse, compare the view.
+// @LEMMA C03
+pub fn vp_roundtrip_sdes(b: &SdesBuilder, buf: &mut [u8])
+    requires
+        sdes_cfg_ok(b),
+        old(buf).len() == b.spec_calc()->Ok_0,
+{
+    let n = b.write_into_unchecked(buf);
+    proof {
+        lemma_sdes_img_accept(b);
+    }
+    let parsed = Sdes::parse(buf);
+    assert(parsed is Ok);
+    let p = parsed.unwrap();
+    let pad = p.padding();
+    assert(pad == (if b.padding == 0 { None::<u8> } else { Some(b.padding) }));
+    let cnt = p.count();
+    assert(cnt as int == b.chunks@.len());
+    let it = p.chunks();
+    proof {
+        p.lemma_view();
+        lemma_roundtrip_sdes_view(b, p.spec_chunks());
+    }
+    assert(it.remaining().len() == b.chunks@.len());
+    assert forall|i: int| 0 <= i < b.chunks@.len() implies chunk_view_is(#[trigger] it.remaining()[i], &b.chunks@[i]) by {
+        assert(*it.remaining()[i] == p.spec_chunks()[i]);
+    }
+    // every item read back through the accessors' own postconditions is the configured type / value / prefix
+    assert forall|i: int, j: int| 0 <= i < b.chunks@.len() && 0 <= j < b.chunks@[i].items@.len() implies ({
+        let data = (#[trigger] it.remaining()[i].items@[j]).data@;
+        let cfg = &b.chunks@[i].items@[j];
+        &&& data[0] == cfg.type_
+        &&& (if data[0] == 8 { data.subrange(3 + data[2] as int, data.len() as int) } else { data.subrange(2, data.len() as int) }) == cow_str_bytes(&cfg.value)
+        &&& (data[0] == 8 ==> data.subrange(3, 3 + data[2] as int) == cow_u8(&cfg.prefix))
+    }) by {
+        lemma_sdes_cfg(b);
+        assert(chunk_view_is(it.remaining()[i], &b.chunks@[i]));
+        lemma_chunk_items_cfg_ok(&b.chunks@[i]);
+        assert(item_cfg_ok(&b.chunks@[i].items@[j]));
+        lemma_item_view(it.remaining()[i].items@[j].data@, &b.chunks@[i].items@[j]);
+    }
+}
+
+} // verus!
+
+verus! {
+
+// ---- C05: generic NACK round trip: decoding the image of a strictly increasing sequence yields the sequence ----------
+use crate::feedback::nack::{img_nack, nack_word, nack_run, nack_blp_of, strictly_increasing, lemma_pow2_mono, lemma_blp_push, lemma_nack_run_bounds, lemma_img_nack_unfold, lemma_img_nack_len};
+
+pub proof fn lemma_pow2_add(a: int, b: int)
+    requires
+        0 <= a,
+        0 <= b,
+    ensures
+        pow2(a + b) == pow2(a) * pow2(b),
+    decreases b,
+{
+    if b == 0 {
+        assert(pow2(0) == 1);
+        assert(pow2(a) * 1 == pow2(a)) by (nonlinear_arith);
+    } else {
+        lemma_pow2_add(a, b - 1);
+        assert(pow2(a + b) == 2 * pow2(a + b - 1));
+        assert(pow2(b) == 2 * pow2(b - 1));
+        assert(2 * (pow2(a) * pow2(b - 1)) == pow2(a) * (2 * pow2(b - 1))) by (nonlinear_arith);
+    }
+}
+
+pub proof fn lemma_blp_split(p: Seq<u16>, a: int, j: int, end: int)
+    requires
+        1 <= a <= j <= end <= p.len(),
+    ensures
+        nack_blp_of(p, 0, a, end) == nack_blp_of(p, 0, a, j) + nack_blp_of(p, 0, j, end),
+    decreases j - a,
+{
+    if a < j {
+        lemma_blp_split(p, a + 1, j, end);
+    }
+}
+
+/// the bits below the next candidate: the partial sum over the first j-1 run members is smaller than the next power of two
+pub proof fn lemma_blp_low(p: Seq<u16>, j: int)
+    requires
+        strictly_increasing(p),
+        1 <= j <= p.len(),
+    ensures
+        0 <= nack_blp_of(p, 0, 1, j),
+        j == 1 ==> nack_blp_of(p, 0, 1, j) == 0,
+        j >= 2 ==> nack_blp_of(p, 0, 1, j) < pow2(p[j - 1] - p[0]),
+    decreases j,
+{
+    if j >= 2 {
+        lemma_blp_low(p, j - 1);
+        lemma_blp_push(p, 1, j - 1);
+        let e = p[j - 1] - p[0] - 1;
+        assert(p[0] < p[j - 1]);
+        lemma_pow2_mono(0, e);
+        assert(pow2(e + 1) == 2 * pow2(e));
+        if j >= 3 {
+            assert(p[j - 2] < p[j - 1]);
+            lemma_pow2_mono(p[j - 2] - p[0], e);
+        }
+    }
+}
+
+/// the bits from candidate j on: a multiple of 2^e for every e up to the bit of p[j], odd multiple exactly at that bit
+pub proof fn lemma_blp_high(p: Seq<u16>, j: int, end: int, e: int) -> (x: int)
+    requires
+        strictly_increasing(p),
+        1 <= j <= end <= p.len(),
+        0 <= e,
+        j < end ==> e <= p[j] - p[0] - 1,
+    ensures
+        nack_blp_of(p, 0, j, end) == pow2(e) * x,
+        0 <= x,
+        x % 2 == (if j < end && e == p[j] - p[0] - 1 { 1int } else { 0int }),
+    decreases end - j,
+{
+    if j >= end {
+        assert(pow2(e) * 0 == 0) by (nonlinear_arith);
+        0
+    } else {
+        let e1 = p[j] - p[0] - 1;
+        if j + 1 < end {
+            assert(p[j] < p[j + 1]);
+        }
+        let y = lemma_blp_high(p, j + 1, end, e + 1);
+        assert(pow2(e + 1) == 2 * pow2(e));
+        lemma_pow2_add(e, e1 - e);
+        lemma_pow2_mono(0, e1 - e);
+        let q = pow2(e1 - e);
+        let pe = pow2(e);
+        assert(nack_blp_of(p, 0, j, end) == pow2(e1) + nack_blp_of(p, 0, j + 1, end));
+        assert(pe * q + (2 * pe) * y == pe * (q + 2 * y)) by (nonlinear_arith);
+        if e1 == e {
+            assert(q == 1);
+        } else {
+            assert(q == 2 * pow2(e1 - e - 1));
+        }
+        assert(q + 2 * y >= 0) by (nonlinear_arith) requires q >= 1, y >= 0;
+        q + 2 * y
+    }
+}
+
+pub proof fn lemma_bit_of_sum(low: int, k: int, x: int)
+    requires
+        0 <= k,
+        0 <= low < pow2(k),
+        0 <= x,
+    ensures
+        bit_set(low + pow2(k) * x, k) == (x % 2 == 1),
+{
+    lemma_pow2_mono(0, k);
+    let d = pow2(k);
+    assert(low + d * x == d * x + low);
+    vstd::arithmetic::div_mod::lemma_fundamental_div_mod_converse(low + d * x, d, x, low);
+}
+
+pub proof fn lemma_run_within(p: Seq<u16>, j: int, k: int)
+    requires
+        1 <= j <= k < nack_run(p, 0, j),
+        k < p.len(),
+    ensures
+        p[k] - p[0] <= 16,
+    decreases k - j,
+{
+    if j < k {
+        // nack_run(p,0,j) continues past j only if p[j] is within 16
+        lemma_run_within(p, j + 1, k);
+    }
+}
+
+/// the word image read back: PID and BLP
+pub proof fn lemma_nack_word_fields(d: Seq<u8>, p: Seq<u16>)
+    requires
+        strictly_increasing(p),
+        p.len() > 0,
+        d.len() >= 4,
+        d.subrange(0, 4) == nack_word(p),
+    ensures
+        nack_pid(d, 0) == p[0],
+        nack_blp(d, 0) == nack_blp_of(p, 0, 1, nack_run(p, 0, 1)),
+        0 <= nack_blp_of(p, 0, 1, nack_run(p, 0, 1)) < 65536,
+{
+    let end = nack_run(p, 0, 1);
+    lemma_nack_run_bounds(p, 1);
+    lemma_blp_low(p, end);
+    let blp = nack_blp_of(p, 0, 1, end);
+    if end >= 2 {
+        lemma_run_within(p, 1, end - 1);
+        lemma_pow2_mono(p[end - 1] - p[0], 16);
+    }
+    assert(pow2(16) == 65536) by { reveal_with_fuel(pow2, 17); }
+    lemma_be16_img(p[0] as int);
+    lemma_be16_img(blp);
+    let w = d.subrange(0, 4);
+    assert(w[0] == d[0] && w[1] == d[1] && w[2] == d[2] && w[3] == d[3]);
+    assert(w[0] == img_be16(p[0] as int)[0] && w[1] == img_be16(p[0] as int)[1]);
+    assert(w[2] == img_be16(blp)[0] && w[3] == img_be16(blp)[1]);
+}
+
+/// decoding the bitmask of the first word from bit m on yields the remaining members of the run, then the next word
+#[verifier::spinoff_prover]
+pub proof fn lemma_nack_word_decode(d: Seq<u8>, p: Seq<u16>, m: int, j: int)
+    requires
+        strictly_increasing(p),
+        p.len() > 0,
+        d.len() >= 4,
+        d.subrange(0, 4) == nack_word(p),
+        1 <= m <= 17,
+        1 <= j <= nack_run(p, 0, 1),
+        forall|k: int| 1 <= k < j ==> (#[trigger] p[k]) - p[0] < m,
+        j < nack_run(p, 0, 1) ==> p[j] - p[0] >= m,
+    ensures
+        nack_rest(d, 0, m) == p.subrange(j, nack_run(p, 0, 1)) + nack_rest(d, 1, 0),
+    decreases 17 - m,
+{
+    let end = nack_run(p, 0, 1);
+    lemma_nack_run_bounds(p, 1);
+    lemma_nack_word_fields(d, p);
+    if m == 17 {
+        if j < end {
+            lemma_run_within(p, 1, j);
+        }
+        assert(p.subrange(j, end) =~= Seq::<u16>::empty());
+        assert(Seq::<u16>::empty() + nack_rest(d, 1, 0) =~= nack_rest(d, 1, 0));
+    } else {
+        let blp = nack_blp_of(p, 0, 1, end);
+        lemma_blp_split(p, 1, j, end);
+        lemma_blp_low(p, j);
+        let low = nack_blp_of(p, 0, 1, j);
+        if j >= 2 {
+            lemma_pow2_mono(p[j - 1] - p[0], m - 1);
+        } else {
+            lemma_pow2_mono(0, m - 1);
+        }
+        let x = lemma_blp_high(p, j, end, m - 1);
+        lemma_bit_of_sum(low, m - 1, x);
+        let present = j < end && p[j] - p[0] == m;
+        assert(bit_set(nack_blp(d, 0), m - 1) == present);
+        if present {
+            if j + 1 < end {
+                assert(p[j] < p[j + 1]);
+            }
+            assert forall|k: int| 1 <= k < j + 1 implies (#[trigger] p[k]) - p[0] < m + 1 by {}
+            lemma_nack_word_decode(d, p, m + 1, j + 1);
+            assert((nack_pid(d, 0) + m) % 65536 == p[j]);
+            assert(p.subrange(j, end) =~= seq![p[j]] + p.subrange(j + 1, end));
+            assert(seq![p[j]] + (p.subrange(j + 1, end) + nack_rest(d, 1, 0)) =~= (seq![p[j]] + p.subrange(j + 1, end)) + nack_rest(d, 1, 0));
+        } else {
+            assert forall|k: int| 1 <= k < j implies (#[trigger] p[k]) - p[0] < m + 1 by {}
+            lemma_nack_word_decode(d, p, m + 1, j);
+        }
+    }
+}
+
+/// dropping the first word shifts the word index
+pub proof fn lemma_nack_rest_shift(d: Seq<u8>, i: int, m: int)
+    requires
+        d.len() >= 4,
+        0 <= i,
+        0 <= m,
+    ensures
+        nack_rest(d, i + 1, m) == nack_rest(d.subrange(4, d.len() as int), i, m),
+    decreases d.len() - 4 * i, 17 - m,
+{
+    let t = d.subrange(4, d.len() as int);
+    if 4 * (i + 1) + 4 > d.len() {
+    } else {
+        assert(t[4 * i] == d[4 * i + 4] && t[4 * i + 1] == d[4 * i + 5] && t[4 * i + 2] == d[4 * i + 6] && t[4 * i + 3] == d[4 * i + 7]);
+        assert(nack_pid(d, i + 1) == nack_pid(t, i));
+        assert(nack_blp(d, i + 1) == nack_blp(t, i));
+        if m > 16 {
+            lemma_nack_rest_shift(d, i + 1, 0);
+        } else {
+            lemma_nack_rest_shift(d, i, m + 1);
+        }
+    }
+}
+
+/// C05 (generic NACK): what the RFC 4585 decoder reads from the image of a strictly increasing list is that list
+// @LEMMA C05
+#[verifier::spinoff_prover]
+pub proof fn lemma_roundtrip_nack(p: Seq<u16>)
+    requires
+        strictly_increasing(p),
+    ensures
+        nack_seq(img_nack(p)) == p,
+    decreases p.len(),
+{
+    if p.len() == 0 {
+        assert(nack_rest(Seq::<u8>::empty(), 0, 0) =~= Seq::<u16>::empty());
+    } else {
+        lemma_img_nack_unfold(p);
+        let end = nack_run(p, 0, 1);
+        let rest = p.subrange(end, p.len() as int);
+        let d = img_nack(p);
+        let w = nack_word(p);
+        assert(d == w + img_nack(rest));
+        assert(d.subrange(0, 4) =~= w);
+        assert(d.subrange(4, d.len() as int) =~= img_nack(rest));
+        lemma_nack_word_fields(d, p);
+        // m == 0: the PID itself, then the bits
+        assert forall|k: int| 1 <= k < 1 implies (#[trigger] p[k]) - p[0] < 1 by {}
+        if 1 < end {
+            assert(p[0] < p[1]);
+        }
+        lemma_nack_word_decode(d, p, 1, 1);
+        assert(nack_rest(d, 0, 0) == seq![nack_pid(d, 0) as u16] + nack_rest(d, 0, 1));
+        lemma_nack_rest_shift(d, 0, 0);
+        assert(strictly_increasing(rest));
+        lemma_roundtrip_nack(rest);
+        assert(seq![p[0]] + (p.subrange(1, end) + rest) =~= p);
+        assert(seq![p[0]] + (p.subrange(1, end) + nack_rest(d, 1, 0)) =~= seq![p[0]] + (p.subrange(1, end) + rest));
+    }
+}
+
+} // verus!
+
+verus! {
+
+/// C05 (generic NACK) as a verified program over the real API: the owned set of sequence numbers goes through the
+/// run-length encoder, the transport feedback writer, the parser and `parse_fci`; what the decoder is about to yield
+/// is the sorted enumeration of the configured set
+// @LEMMA C05
+pub fn vp_roundtrip_nack(nack: &crate::feedback::nack::NackBuilder, sender: u32, media: u32, padding: u8, buf: &mut [u8])
+    requires
+        nack.spec_calc() is Ok,
+        padding % 4 == 0,
+        old(buf).len() == 12 + nack.spec_calc()->Ok_0 + padding,
+        12 + nack.spec_calc()->Ok_0 + padding <= MAX_RTCP_BYTES,
+{
+    let b = crate::TransportFeedback::builder(nack).sender_ssrc(sender).media_ssrc(media).padding(padding);
+    let ghost p0 = crate::feedback::nack::nack_sorted(nack.rtp_seq@);
+    proof {
+        crate::feedback::nack::axiom_nack_sorted_inc(nack.rtp_seq@);
+        lemma_img_nack_len(p0);
+    }
+    assert(b.spec_calc() is Ok);
+    let n = b.write_into_unchecked(buf);
+    proof {
+        lemma_fb_image(205, padding as int, 1, sender, media, nack.spec_bytes());
+        lemma_roundtrip_nack(p0);
+    }
+    let parsed = crate::TransportFeedback::parse(buf);
+    assert(parsed is Ok);
+    let p = parsed.unwrap();
+    let s = p.sender_ssrc();
+    let m = p.media_ssrc();
+    let pad = p.padding();
+    let fmt = p.count();
+    assert(s == sender && m == media && fmt == 1);
+    assert(pad == (if padding == 0 { None::<u8> } else { Some(padding) }));
+    proof {
+        crate::feedback::nack::Nack::lemma_fci_consts();
+    }
+    let f = p.parse_fci::<crate::Nack>();
+    assert(f is Ok);
+    let f = f.unwrap();
+    let it = f.entries();
+    assert(nack_rest(it.parser.data@, it.i as int, it.mask_i as int) == p0);
+}
+
+} // verus!
